@@ -326,6 +326,8 @@ func (w *World) StartPlugin() error {
 		p.VerifSetCloudProvider(w.Provider)
 	}
 	w.Plugin = p
+	in := w.In
+	p.VerifWrapIPAM(func(i floatingip.IPAM) floatingip.IPAM { return &yieldIPAM{IPAM: i, in: in} })
 	return p.Init()
 }
 
